@@ -47,7 +47,7 @@ def lenclass(n):
     return 'empty' if n == 0 else 'len1' if n == 1 else 'len2' if n == 2 else 'len>2'
 
 
-def coef_sets(L, seed, salt, ints=True, dense_first=False):
+def coef_sets(L, seed, salt, ints=True, dense_first=False, scaled=False):
     """(label, list) coefficient vectors: every unit vector (float, and int-valued), one seeded dense."""
     out = []
     for k in range(L):
@@ -61,7 +61,10 @@ def coef_sets(L, seed, salt, ints=True, dense_first=False):
             out.append((f'iunit{k}', e))
     d = dense((L,), seed, salt, complex_=False)
     d = ('dense', [float(v) for v in d])
-    return [d] + out if dense_first else out + [d]
+    # magnitude of the coefficients (nm vs m, waves vs mm): the sums are linear, so the same vector scaled by 1e-9 / 1e-12 / 1e9 must give
+    # the scaled answer (every tolerance is relative to the coefficient scale); and a vector whose entries alternate between O(1) and 1e-9
+    sc = [(f'dense*{f:g}', [v * f for v in d[1]]) for f in (1e-9, 1e-12, 1e9)] + [('dense-mixed', [v * (1.0 if k % 2 == 0 else 1e-9) for k, v in enumerate(d[1])])]
+    return ([d] + out if dense_first else out + [d]) + (sc if scaled else [])
 
 
 # coefficient containers: how a caller may hold one coefficient vector
@@ -87,7 +90,7 @@ def sets_for(kind, L, seed, salt):
     """Coefficient sets appropriate to a container kind: int containers hold the int-valued unit vectors only."""
     if kind == 'int':
         return [(n, c) for n, c in coef_sets(L, seed, salt, ints=True) if n.startswith('iunit')]
-    return coef_sets(L, seed, salt, ints=(kind == 'list'), dense_first=True)
+    return coef_sets(L, seed, salt, ints=(kind == 'list'), dense_first=True, scaled=kind in ('list', 'f64'))
 
 
 def values_of(cont):
@@ -371,6 +374,7 @@ def run_q2d_subsets(case, seed, R):
     has_cos, has_sin = any(m > 0 for _, m in nms), any(m < 0 for _, m in nms)
     psig = 'Q2d_nm_c_to_a_b:' + ('both-families' if has_cos and has_sin else 'empty-family')
     sets = [('dense', [float(v) for v in dense((n,), seed, 5 + case['index'], complex_=False)])]
+    sets += [(f'dense*{f:g}', [v * f for v in sets[0][1]]) for f in (1e-9, 1e9)] + [('dense-mixed', [v * (1.0 if abs(nms[k][1]) % 2 == 0 else 1e-9) for k, v in enumerate(sets[0][1])])]
     if n > 1:
         for k in range(n):
             e = [0.0] * n
@@ -844,6 +848,68 @@ def run_lstsq_values(case, seed, R):
 # ---------------------------------------------------------------------------------------------
 
 # ---------------------------------------------------------------------------------------------
+# size thresholds: frames / coordinate arrays just above 2^k samples (work split in blocks, tail dropped or mis-addressed)
+
+def run_large(case, seed, R):
+    kind, shape = case['kind'], tuple(case['shape'])
+    n = int(np.prod(shape))
+    hy = n <= 70000
+    if kind == 'modes':
+        K = 3
+        base = np.arange(n, dtype=float).reshape(shape)
+        modes = np.stack([np.cos(0.001 * base + k) + 0.25 * k for k in range(K)])
+        w = [1.5, -0.75, 2.25]
+        want = sum(wk * mk for wk, mk in zip(w, modes))
+        cond = sum(abs(wk) * (np.abs(mk) + 1.0) for wk, mk in zip(w, modes))
+        for form, arg in (('ndarray', modes), ('list', [m for m in modes])):
+            got = R.call(P.sum_of_2d_modes, arg, np.array(w), sig='sum_of_2d_modes:large:exception', hygiene=hy)
+            R.expect_close(got, want, 64 * EPS * cond, 'sum_of_2d_modes:large', f'{K} modes of shape {shape} ({form}) vs the explicit sum, every sample judged')
+    else:
+        # point-wise routines: f(tile(x)) == tile(f(x)) -- a period-11 tiling of 11 reference points, so the answer for EVERY element
+        # of the large array is known from the 11-point call (itself judged against the explicit sum)
+        per = 11
+        idx = np.arange(n) % per
+        if kind == 'jacobi':
+            x0 = np.linspace(-1, 1, per)
+            c = [1.0, -2.0, 0.5, 3.0]
+            f = lambda x: P.jacobi_sum_clenshaw(list(c), 0.5, -0.5, x)      # noqa
+            ref, cond = explicit_sum(c, [P.jacobi(k, 0.5, -0.5, x0) for k in range(4)])
+        elif kind == 'qbfs':
+            x0 = np.linspace(0.02, 0.98, per)
+            c = [1.0, -2.0, 0.5, 3.0]
+            f = lambda u: Q.compute_z_zprime_Qbfs(list(c), u, u * u)[0]   # noqa
+            ref, cond = explicit_sum(c, [Q.Qbfs(k, x0) for k in range(4)])
+        elif kind == 'qcon':
+            x0 = np.linspace(0.02, 0.98, per)
+            c = [1.0, -2.0, 0.5, 3.0]
+            f = lambda u: Q.compute_z_zprime_Qcon(list(c), u, u * u)[0]   # noqa
+            ref, cond = explicit_sum(c, [Q.Qcon(k, x0) for k in range(4)])
+        elif kind == 'clenshaw_qbfs':
+            x0 = np.linspace(0.02, 0.98, per)
+            c = [1.0, -2.0, 0.5, 3.0]
+            f = lambda u: Q.clenshaw_qbfs(list(c), u * u)                 # noqa
+            ref, cond = explicit_sum(c, [Q.Qbfs(k, x0) for k in range(4)])
+        else:
+            x0 = np.linspace(0.02, 0.98, per)
+            t0 = np.linspace(-3, 3, per)
+            cm0, ams, bms = ref_pack(H_NMS, H_C2D)
+            f = None
+            ref, cond = q2d_reference(H_NMS, H_C2D, x0, t0)
+        if kind == 'q2d':
+            small = R.call(lambda u, t: Q.compute_z_zprime_Q2d(list(cm0), [list(a) for a in ams], [list(b) for b in bms], u, t)[0], x0.copy(), t0.copy(), sig='compute_z_zprime_Q2d:large:exception', hygiene=False)
+            big = R.call(lambda u, t: Q.compute_z_zprime_Q2d(list(cm0), [list(a) for a in ams], [list(b) for b in bms], u, t)[0], x0[idx].reshape(shape), t0[idx].reshape(shape), sig='compute_z_zprime_Q2d:large:exception', hygiene=hy)
+        else:
+            small = R.call(f, x0.copy(), sig=f'{kind}:large:exception', hygiene=False)
+            big = R.call(f, x0[idx].reshape(shape), sig=f'{kind}:large:exception', hygiene=hy)
+        R.expect_close(small, ref, KTOL * EPS * cond, f'{kind}:large:reference-points', 'the 11 reference points vs the explicit sum')
+        if small is not FAILED and big is not FAILED:
+            R.expect_close(big, np.asarray(small)[idx].reshape(shape), 8 * EPS * cond, f'{kind}:large',
+                           f'fast sum on a {shape} coordinate array (period-11 tiling of 11 points) vs the tiling of its answer on the 11 points, every element judged')
+    R.nontrivial()
+    R.outcome(f'large:{kind}')
+
+
+# ---------------------------------------------------------------------------------------------
 # call / precision history of the fast sums (explicit-state BFS over module-level state: config.precision and whatever the
 # routines memoise between calls)
 
@@ -1034,8 +1100,14 @@ def plan(tier, seed):
                             'sum X on fixed 7-point float64 inputs with fresh argument objects: jacobi_sum_clenshaw at three (alpha, beta) and two lengths, clenshaw_qbfs, compute_z_zprime_Qbfs / Qcon / Q2d, sum_of_2d_modes); '
                             'no state merging (the state is the history); invariant after every call: the result equals the explicit sum to 1e3 eps(configured precision) cond, whatever ran before',
                             reset=reset_all)
+    lg_shapes = [[4099], [65539], [513, 512], [480, 640], [300, 1001]] + ([] if quick else [[262147], [1030, 1031], [2, 3, 44001]])
+    lg_cases = [{'kind': k, 'shape': sh} for sh in lg_shapes for k in ('modes', 'jacobi', 'clenshaw_qbfs', 'qbfs', 'qcon', 'q2d') if not (k == 'modes' and len(sh) != 2)]
     return [
         hist_unit,
+        ScopeUnit('large', lg_cases, run_large,
+                  f'size-threshold alphabet {lg_shapes} (element counts just above 2^12, 2^16, 2^18 and not a multiple of them): sum_of_2d_modes of 3 modes (ndarray and list) against the explicit sum on every sample; '
+                  'the point-wise fast sums jacobi_sum_clenshaw, clenshaw_qbfs, compute_z_zprime_Qbfs / Qcon / Q2d on a period-11 tiling of 11 reference points, every element against the 11-point answer '
+                  '(itself against the explicit sum); not closed over sizes', reset=reset_all),
         ScopeUnit('sum_of_2d_modes', sm_cases, run_sum_modes,
                   f'every mode count K in 1..{LMAX} x shapes {sm_shapes} x modes given as 3-D array / list of 2-D arrays x float64/float32; '
                   f'x memory layout of the modes {LAYOUTS} (C / Fortran copy / transposed view of transposed data / strided slice; non-C layouts for float64 non-square 2-D shapes); '
